@@ -35,10 +35,14 @@ func TestCancelDuringDispatch(t *testing.T) {
 
 var collRace = vkit.NewCollector("C06", "TestWaitRace", "free-running stress on real goroutines (race detector on): 200-600 rounds per case in which a quick Async handler signals that it is about to return and spins for a varying time, the publisher publishes a second event as soon as it sees the signal and calls Wait (mode publish), or calls Wait after a varying spin of its own with no further publish (mode last), or publishes to a trivial handler and calls Wait after a varying distance with no handshake (mode free); oracle = every invocation finished when Wait returns, and Wait returns: a Wait still blocked 40 s after every invocation has finished, with nothing moving, is a hang. Non-trivial = >=2 rounds.")
 
+var collTrickle = vkit.NewCollector("C06", "TestWaitTrickle", "free-running volume stress on real goroutines (no race detector): 100-300 rounds per case in which 5-40 events are published with small varying gaps to 1-16 Async handlers (three quarters of the cases with Sequential), then Wait; oracle = every delivery has run when Wait returns, and Wait returns (stall oracle as in TestWaitRace). Non-trivial = >=2 rounds.")
+
+func TestWaitTrickle(t *testing.T) { vkit.Check(t, collTrickle, GenTrickle, RunRace) }
+
 func TestWaitRace(t *testing.T) { vkit.Check(t, collRace, GenRace, RunRace) }
 
 func TestReplay(t *testing.T) {
 	r := vkit.NeedReplay(t)
 	_ = vkit.ReplayCase(t, r, coll, func(c *Case) *vkit.Outcome { return Run(t, c) }) ||
-		vkit.ReplayCase(t, r, collRace, RunRace) || vkit.ReplayCase(t, r, collCancel, func(c *CancelCase) *vkit.Outcome { return RunCancel(t, c) })
+		vkit.ReplayCase(t, r, collRace, RunRace) || vkit.ReplayCase(t, r, collTrickle, RunRace) || vkit.ReplayCase(t, r, collCancel, func(c *CancelCase) *vkit.Outcome { return RunCancel(t, c) })
 }
